@@ -1038,11 +1038,15 @@ func runInBubble(t *testing.T, sc *Scenario, cfg simrt.Config, hooks Hooks, res 
 			}
 			if !e.initRefused {
 				e.sendRaw("initialized", map[string]interface{}{}, false, -1)
-				e.Settle()
+				if !sc.Eager {
+					e.Settle()
+				}
 			}
 			if sc.FirstCfg && !e.initRefused {
 				e.sendRaw("workspace/didChangeConfiguration", map[string]interface{}{"settings": map[string]interface{}{}}, false, -1)
-				e.Settle()
+				if !sc.Eager {
+					e.Settle()
+				}
 			}
 		}
 		for i := range sc.Ops {
